@@ -96,6 +96,20 @@ CLAIMED = {
         note="request_statements' sort/groupby assembly is bounded only (not under a symbolic contract): 11 versions x pretty x close_elements x ORG/FID x CLIENTUID x request multisets with credentials/ids incl. & < > quotes and non-ASCII, dates with offsets, all flags. A-UUID: uuid4 ids are distinct. Known finding KF-C01-unclosed-empty-aggregate shared with C01.",
         technique="contracts on the real builders with heap model instances and abstract converters (pyvc + z3); bounded compose-and-parse-back run",
         engine="pyvc"),
+    "C02": dict(
+        category="proof",
+        text="Shape-bounded, character-unbounded proof on the real TreeBuilder.feed/close with the real regex (symbolic matcher) and a ghost C builder: for every tree structure with <= 3 nodes and the listed rendering choices per node, with all tag, data and whitespace characters symbolic, the builder receives exactly the start/data/end events of the tree. _groomstring trims at both ends only; _start emits a complete child for a data element and pushes for an aggregate. Documents of any size: bounded run of about 440 000 renderings of all trees with <= 4 nodes against a strict reference tokenizer.",
+        design_ref="DESIGN.md 9 (C02)",
+        note="The induction from token shapes to whole documents is not machine-checked (stated); the C TreeBuilder and re.finditer are mirrored (T-EXT). Data elements without end tag inside a same-named parent are inherently ambiguous and out of scope. Three genuine defects found here were repaired (greedy CDATA, CDATA with line breaks / surrounding whitespace).",
+        technique="contracts on feed/_start/_groomstring with a symbolic regex matcher and ghost builder (pyvc + z3); exhaustive bounded enumeration of renderings",
+        engine="pyvc"),
+    "C08": dict(
+        category="proof",
+        text="On the ghost builder: an end tag that does not name the innermost open element raises ParseError, text after an end tag raises ParseError, close() raises ParseError while any element is open, a stray end tag on an empty stack reaches the C builder's IndexError, a second top-level element is refused by the C builder. Whole documents: bounded fault enumeration (every truncation point, every single end-tag deletion / renaming / misspelling / duplication / transposition, stray text and end tags, second top-level element) of every rendering of every tree with <= 3 nodes against the strict reference tokenizer.",
+        design_ref="DESIGN.md 9 (C08)",
+        note="The per-call contracts are proofs; the statement for whole documents rests on the bounded enumeration (stated). The nesting check itself was missing on the pinned tree and was repaired (fix 05cd1d5).",
+        technique="contracts on _feedmatch/_start/close over a ghost element stack (pyvc + z3); bounded fault enumeration",
+        engine="pyvc"),
 }
 
 
